@@ -142,6 +142,7 @@ func zzC08Links(s *StateDB, n int, d common.Address) bool {
 }
 
 func zzH_C08_step() {
+	zzValTwoDlg = true
 	s, d := zzValState()
 	zzverif.Assume(zzC08Consistent(s, 2) && zzC08Index(s, 2) && zzC08Links(s, 2, d)) // holds by construction; kept as a guard
 	zzverif.Reach("pre")
